@@ -47,7 +47,7 @@ Proof.
       repeat split; auto. exists newk; split; [right; lia|exact A].
     + rewrite (ratrecon_bigk f m newk Hm Gt ltac:(lia)) in E. inversion E; subst r'; clear E.
       pose proof (bigk_value f m newk Hm Gt ltac:(lia)) as V.
-      cbn. intros _. split; [|split; [lia|split]].
+      unfold good. intros _. split; [|split; [lia|split]].
       * rewrite Z.mul_1_l. exists (- Z.quot (f + m - newk) m). lia.
       * intros _. apply Z.gcd_1_r.
       * exists newk; split; [right; lia|lia].
@@ -120,8 +120,8 @@ Proof.
     pose proof (size_abs_lt a b k m ltac:(lia) (proj1 Hk) Hb Hsz) as Hlt.
     assert (Hc0 : c = 0) by (apply (abs_mul_lt_zero c m); [lia|rewrite <- Ha; lia]).
     assert (Ha0 : a = 0) by (rewrite Ha, Hc0; reflexivity).
-    subst a. rewrite Z.gcd_0_l in Hg.
-    assert (b = 1) by lia. subst b. reflexivity.
+    rewrite Ha0 in Hg |- *. rewrite Z.gcd_0_l in Hg.
+    assert (Hb1 : b = 1) by lia. rewrite Hb1. reflexivity.
   - rewrite (ratrecon_complete (normalise f m) m k fr a b Hm Hk Hb Hg Hcx Hsz).
     destruct rc; [apply widen_done|reflexivity].
 Qed.
